@@ -9,3 +9,4 @@ import Beeb.Props.C13
 #print axioms Beeb.Props.C13.C13_hints
 #print axioms Beeb.Props.C13.C13_sector_count
 #print axioms Beeb.Props.C13.C13_geometry_found
+#print axioms Beeb.Props.C13.C13_hdfs_flag_leaf
